@@ -9,7 +9,8 @@
                                      processed: the flush is "more calls of process_data".
 
    A packet is a list of frames; a run is a list of steps (packet, reset flag), one per process_data call,
-   in the order the filter thread performs them, whatever the packet boundaries are.  No proofs here. *)
+   in the order the filter thread performs them, whatever the packet boundaries are.  A history of one filter
+   instance is a list of acquisitions (run_acquisitions, below).  No proofs here. *)
 From Coq Require Import ZArith List Bool.
 From Average Require Import AccModel.
 Import ListNotations.
@@ -156,6 +157,57 @@ Definition run_thread (e : env) (steps : list (list frame * bool)) : list (list 
 Definition run_outputs (e : env) (steps : list (list frame * bool)) : list oframe :=
   match run_thread e steps with
   | (outs, fin, _) => concat outs ++ fin
+  end.
+
+(* ------------------------------------------------------------------ several acquisitions on ONE video_filter_s *)
+(* acquire.c runs any number of acquisitions on the same struct video_filter_s (video_filter_init once):
+     acquire_configure -> video_filter_configure : filter_window_frames := k          (may differ every time)
+     acquire_start     -> video_filter_start     : the reader is registered, is_stopping := 0, is_running := 1,
+                                                   thread_create (video_filter_thread)
+     the source ends   -> sig_source_stop_filter : is_stopping := 1; thread_join
+     acquire_stop, and again.
+   One acquisition = the environment its thread runs in and the steps (process_data calls) the thread performs. *)
+Definition acquisition : Type := env * list (list frame * bool).
+
+(* the averaging state video_filter_thread holds when it returns: Finalize commits an open accumulator with
+   channel_write_unmap but does not clear `accumulator` / `frame_count` *)
+Fixpoint end_state (e : env) (st : fstate) (steps : list (list frame * bool)) : fstate :=
+  match steps with
+  | [] => st
+  | (p, r) :: rest =>
+      match process_data e st p r with
+      | (st1, _, true) => end_state e st1 rest
+      | (st1, _, false) => st1
+      end
+  end.
+
+(* entry of video_filter_thread:
+       uint64_t frame_count = 0;  struct VideoFrame* accumulator = 0;
+   both are LOCALS of the thread function, initialised at every entry.  struct video_filter_s has no averaging
+   field, video_filter_configure only stores k and video_filter_start only touches reader / is_stopping /
+   is_running: whatever the previous thread of this filter held when it returned is gone. *)
+Definition thread_entry (left_by_previous_thread : fstate) : fstate := st_init.
+
+(* the history of one filter instance: a fold of the per-acquisition model over the acquisitions, threading
+   through what one thread leaves to the next.  One (calls, Finalize, ecode) result per acquisition. *)
+Fixpoint run_acquisitions_from (left : fstate) (acqs : list acquisition)
+  : list (list (list oframe) * list oframe * Z) :=
+  match acqs with
+  | [] => []
+  | (e, steps) :: rest =>
+      let st0 := thread_entry left in
+      run_steps e st0 steps :: run_acquisitions_from (end_state e st0 steps) rest
+  end.
+
+(* video_filter_init: *self = (struct video_filter_s){ .stream_id = .., .out = .. } *)
+Definition run_acquisitions (acqs : list acquisition) : list (list (list oframe) * list oframe * Z) :=
+  run_acquisitions_from st_init acqs.
+
+(* everything the output ring receives during acquisition i of the history, in order *)
+Definition acquisition_outputs (acqs : list acquisition) (i : nat) : list oframe :=
+  match nth_error (run_acquisitions acqs) i with
+  | Some (outs, fin, _) => concat outs ++ fin
+  | None => []
   end.
 
 (* ------------------------------------------------------------------ the specification side (used by the theorems) *)
